@@ -1,6 +1,7 @@
 import Momo.Proof.HashMetaChain
 import Momo.Proof.HashMetaBucket
 import Momo.Proof.TrEqHashMeta
+import Momo.Proof.TrEqWave2Bucket
 /-!
 # C12 — Growth reusing stored hash bits places elements where a full rehash would
 
@@ -544,6 +545,22 @@ theorem C12_limp4_meta_translated (hc maxCount minMpi : Nat) (h4 : 4 ≤ hc) (hm
     rw [TrEq.tr_limp4_removeBytes b.sh hc b.count index (by omega) (by omega) hidx]
     unfold P4.Bucket.remove
     rw [if_neg (by omega), hbh]
+
+/-- **`BucketLimP4::AddCrt`, all five paths, from the header text (second wave; area Wave2Meta, Proof/TrEqWave2Bucket.lean).** The
+metadata writes of the real `AddCrt` — `items == nullptr` (`pvSetHashProbe(0, …)` then `pvAdd0`), the `switch (memPoolIndex)` with
+`case 1`, `case 2`, `default` (each `pvSetHashProbe(k, …)` then `pvAdd<k>`: short hash at `count = k`, pool index `k + 1`), and the
+in-place block (`pvSetHashProbe(count, …)`, `mShortHashes[count] = pvCalcShortHash(hashCode)`), each translated from its own
+fragment of details/HashBucketLimP4.h and composed from the translated `pvSetHashProbe` / `pvCalcShortHash` (`TrEq.trLimp4AddCrt`) —
+are the model's `P4.Bucket.addCrt`, the step `C12_limp4_meta_inv` and `C12_limp4_meta_translated` are about, under the assertions of
+the source (`count < maxCount ≤ 4 ≤ hashCount`, `0 < count` for a non-null bucket) and `logBucketCount ≤ 63`. -/
+theorem C12_limp4_addCrt_translated (b : P4.Bucket) (h L p : Nat) (hL : L ≤ 63) (h4 : 4 ≤ b.hc) (hm : b.maxCount ≤ 4)
+    (hroom : b.count < b.maxCount) (hassert : b.nonnull = true → 0 < b.count) :
+    TrEq.trLimp4AddCrt b h L p = b.addCrt h L p :=
+  TrEq.tr_limp4_addCrt b h L p hL h4 (by omega) (fun hn hg => by have := hassert hn; omega)
+
+-- the translated `AddCrt` run on concrete values: second element of a bucket whose array has one slot (case 1 of the switch)
+example : (TrEq.trLimp4AddCrt (TrEq.trLimp4AddCrt (P4.Bucket.new 4 4 1) 0x123456789ABCDEF0 10 0) 0xFEDCBA9876543210 10 1).mpi = 2 := by
+  decide
 
 /-! Non-vacuity: concrete states meeting the hypotheses. -/
 
